@@ -400,11 +400,15 @@ def over (ob : Option Nat) (n : Nat) : Bool :=
   | some b => decide (n > b)
   | none => false
 
+def headOr (z : Val) : List Val → Val
+  | [] => z
+  | o :: _ => o
+
 /-- `for i := range slice { decode slice[i] in place }`: `olds` are the values the reused backing array holds -/
 def loopElems (f : D) (z : Val) : Nat → List Val → P (List Val)
   | 0, _ => P.pure []
   | n+1, olds =>
-    P.bind (f (match olds with | [] => z | o :: _ => o)) fun v =>
+    P.bind (f (headOr z olds)) fun v =>
     P.bind (loopElems f z n (olds.drop 1)) fun vs => P.pure (v :: vs)
 
 /-- the generated code of a slice: header, allocbound check, resize (reuse when the capacity suffices), element loop -/
